@@ -44,6 +44,16 @@ pub mod acc {
     pub const WAKE_CALL: u8 = 8;
     pub const CS_EXIT: u8 = 9;
     pub const WAKER_KIND: u8 = 10;
+    /// a waiter is taken off the wait list by a peer (under the channel lock)
+    pub const CLAIM: u8 = 11;
+    /// a waiter removed itself from the wait list (under the channel lock)
+    pub const CANCEL_OK: u8 = 12;
+    /// a waiter looked for itself in the wait list and is no longer there
+    pub const CANCEL_FAIL: u8 = 13;
+    /// a waiter found itself still listed (send_signal_exists / recv_signal_exists)
+    pub const STILL_LISTED: u8 = 14;
+    /// ... or no longer listed
+    pub const NOT_LISTED: u8 = 15;
 }
 
 /// One event.  `addr` identifies the location (address of the atomic, or of
